@@ -51,6 +51,12 @@ func new(input string) *Lexer {
 
 // ReadChar advances the lexer to the next character in the input.
 func (l *Lexer) ReadChar() {
+	// End of input is a fixed point: once the cursor sits behind the last byte
+	// it no longer moves, however often a token is requested.
+	if l.readPosition > len(l.input) {
+		return
+	}
+
 	// If the previous character was a newline, reset column
 	if l.CurrentChar == '\n' {
 		l.Line++
